@@ -327,6 +327,65 @@ theorem shipped_programs_safe : ∀ np ∈ programs, safe np.2 = true := by deci
 example : safe copyInplace = true := by decide
 example : safe multiscaleFwd = true := by decide
 
+/-! ### Grid and Stokes vector as heap objects
+
+`Effects.viewProg a p` is what program `p` does on the heap of the objects attached as attribute `a`
+(grid objects / Stokes vectors): `wavefront.copy()` and `Wavefront(…)` constructions share the grid
+object and copy the Stokes vector, `inplaceAttr` updates one in place.  The same checker runs on the view. -/
+
+/-- **A program whose views are accepted leaves the caller's grid and Stokes vector *contents*
+intact**, whatever they were (`g`), for every meaning of the operations — although other wavefronts
+created during the call may point to the very same grid object. -/
+theorem safe_sound_attr (sem : Nat → List Int → Int) (a : Attr) (p : Prog) (hs : safeAttr a p = true)
+    (v : InVal) (g : Int) : attrContentsAfter sem a p v g = some g := by
+  unfold safeAttr at hs
+  unfold attrContentsAfter
+  cases hq : viewProg a p with
+  | none => simp [hq] at hs
+  | some q =>
+    simp only [hq] at hs ⊢
+    exact congrArg some (safe_sound sem q hs { v with field := g }).1
+
+/-- all three heaps at once: field values, wavelength / pointers, grid contents, Stokes contents. -/
+theorem safeAll_sound (sem : Nat → List Int → Int) (p : Prog) (hs : safeAll p = true) (v : InVal) (g st : Int) :
+    (call sem p v).inputField = v.field ∧ (call sem p v).inputObj = v.obj ∧
+      attrContentsAfter sem .grid p v g = some g ∧ attrContentsAfter sem .stokes p v st = some st := by
+  simp only [safeAll, Bool.and_eq_true] at hs
+  obtain ⟨⟨h1, h2⟩, h3⟩ := hs
+  exact ⟨(safe_sound sem p h1 v).1, (safe_sound sem p h1 v).2, safe_sound_attr sem .grid p h2 v g,
+    safe_sound_attr sem .stokes p h3 v st⟩
+
+/-- Every shipped effect program is accepted on all three heaps. -/
+theorem shipped_programs_safeAll : ∀ np ∈ programs, safeAll np.2 = true := by decide
+
+example : safeAll magnifier = true := by decide
+
+/-- The property **can fail** in this model where it could not be expressed before: a result that
+shares the caller's grid object, rescaled in place.  The field-array checker accepts the program … -/
+theorem scaleSharedGridOld_field_safe : safe scaleSharedGridOld = true := by decide
+/-- … the grid view is rejected … -/
+theorem scaleSharedGridOld_unsafe : safeAttr .grid scaleSharedGridOld = false := by decide
+/-- … and the caller's grid is indeed rewritten. -/
+theorem scaleSharedGridOld_rewrites_grid (sem : Nat → List Int → Int) (v : InVal) (g : Int) :
+    attrContentsAfter sem .grid scaleSharedGridOld v g = some (sem opMul [g]) := by
+  simp [attrContentsAfter, viewProg, viewInstr, scaleSharedGridOld, call, exec, step, init, upd, bufOf, contents, InVal.obj]
+
+/-- `wavefront.copy()` does **not** help: the copy points to the same grid object
+(`Field.__array_finalize__`), so rescaling the copy's grid in place is rejected as well … -/
+theorem copy_shares_grid_unsafe : safeAttr .grid ⟨[.copy 1 0, .inplaceAttr opMul 1 .grid], 1⟩ = false := by decide
+/-- … what `Magnifier` does — re-point the copy to a *copy of the grid* first (`grid.scaled`) — is accepted. -/
+example : safeAttr .grid ⟨[.copy 1 0, .copyAttr 1 .grid, .inplaceAttr opMul 1 .grid], 1⟩ = true := by decide
+
+/-- In-place arithmetic on the argument's Stokes vector: rejected, and the vector is rewritten. -/
+theorem stokesInplaceOld_unsafe : safeAttr .stokes stokesInplaceOld = false := by decide
+theorem stokesInplaceOld_rewrites_stokes (sem : Nat → List Int → Int) (v : InVal) (st : Int) :
+    attrContentsAfter sem .stokes stokesInplaceOld v st = some (sem opMul [st]) := by
+  simp [attrContentsAfter, viewProg, viewInstr, stokesInplaceOld, call, exec, step, init, upd, bufOf, contents, InVal.obj]
+
+/-- A new wavefront gets a *copy* of the Stokes vector (`np.array(…)` in `Wavefront.__init__`), so
+updating the result's Stokes vector in place is harmless — unlike the grid. -/
+example : safeAttr .stokes ⟨[.newFrom 1 opJones [0] 0, .inplaceAttr opMul 1 .stokes], 1⟩ = true := by decide
+
 /-- The checker is not vacuous: dropping the copy before an in-place multiply is rejected … -/
 theorem dropped_copy_unsafe : safe ⟨[.inplace opMul 0 []], 0⟩ = false := by decide
 /-- … and indeed overwrites the caller's field. -/
